@@ -74,9 +74,41 @@ def parseOptVecs (toks : List String) : Option (List (Option (List Nat))) :=
     let w' ← opt (list nat)
     pure [w, w']) toks
 
+/-- does the EXACT run of the modelled elimination (the same algorithm, over ℚ) at the first regulariser
+    end on the exact identity? Then (theorems `solve_equiv`, `solve_exact_of_identity`) its result is THE
+    solution of `(A + ε₀I) X = B`; an f64 run of a well-conditioned such system has no excuse to fail or
+    to move to a larger regulariser. (For the spurious-failure observation `[[1,2,0],[2,5,0],[0,0,1]]`
+    the exact run fails too, so that input is not judged by the strict clauses.) -/
+def exactRunOk (n : Nat) (a b : Mat Rat) : Bool :=
+  let st := backfill (reduce (echelon constsQ.fmin n (fillZero (ladderQ.headD 0) a, b)))
+  st.1 == Q.identity n
+
+/-- `κ∞` below which a failure / a larger regulariser is not excused when the exact run succeeds -/
+def kappaStrict : Rat := 1000000
+
+/-- a-priori bounds on what f64 rounding does to the statistics `train` computes from the rows, for a
+    computation that centres the data first (two-pass): with `M_j = max_i |x_ij|`, `R_j` = the largest
+    exact deviation of a value of column `j` from its class mean, `u = 2⁻⁵³`, `n` rows:
+    every mean and every centred value is off by at most `(n+3)·u·M_j`, hence
+    `‖δd‖∞ ≤ 2(n+2)·u·max_j M_j` and
+    `‖δS_w‖∞ ≤ 2(n+3)·u·max_j Σ_k (M_j R_k + M_k R_j + R_j R_k)` (two classes).
+    A single-pass `E[xx'] − μμ'` computation is NOT within these bounds (its error is `u·M_j M_k`). -/
+def inputPerturbation (fq : Mat Rat) (decoy : List Bool) (s : Stats Rat) (p : Nat) : Rat × Rat :=
+  let n : Rat := (fq.length : Rat)
+  let u := Q.dyadicInv 53
+  let M : List Rat := (List.range p).map fun j => Q.normInfV (Q.colq fq j)
+  let R : List Rat := (List.range p).map fun j =>
+    (fq.zip decoy).foldl (fun mx (row, dcy) =>
+      Q.maxq mx (Q.absq (row.getD j 0 - (if dcy then s.muDecoy else s.muTarget).getD j 0))) 0
+  let dd := 2 * (n + 2) * u * Q.normInfV M
+  let rowSum (j : Nat) : Rat := (List.range p).foldl (fun acc k =>
+    acc + M.getD j 0 * R.getD k 0 + M.getD k 0 * R.getD j 0 + R.getD j 0 * R.getD k 0) 0
+  let dS := 2 * (n + 3) * u * ((List.range p).foldl (fun mx j => Q.maxq mx (rowSum j)) 0)
+  (dd, dS)
+
 /-- one direction judged against the exact Fisher direction; returns the verdict and, when the
     direction was accepted, the angle bound that was used (for the row-order clause) -/
-def judgeDir (p : Nat) (s : Stats Rat) (w : List Rat) : String × Option (Rat × List Rat) :=
+def judgeDir (p : Nat) (s : Stats Rat) (dd dS : Rat) (w : List Rat) : String × Option (Rat × List Rat) :=
   let d := List.zipWith (· - ·) s.muTarget s.muDecoy
   -- orientation, with the rounding allowance of the two f64 dot products the code compares
   let allow := Q.dyadicInv 50 * ((List.zipWith (fun a b => Q.absq a * Q.absq b) s.muTarget w).foldl (· + ·) 0
@@ -87,6 +119,9 @@ def judgeDir (p : Nat) (s : Stats Rat) (w : List Rat) : String × Option (Rat ×
   -- accepted iff it matches the exact regularised Fisher direction for SOME ε of the ladder at which
   -- the bound is meaningful; rejected only if ε₀ itself (the first the code tries, where a
   -- well-conditioned system cannot fail) is well-conditioned enough to be judged
+  -- strict at ε₀: when the exact run of the elimination succeeds at the first regulariser and the bound
+  -- there is meaningful, the direction must match the Fisher direction for ε₀ itself
+  let strict := exactRunOk p s.sw s.sb
   let rec go : List Rat → Bool → Bool → String × Option (Rat × List Rat)
     | [], judged, _ => (if judged then "bad:not_fisher" else "na", none)
     | eps :: rest, judged, first =>
@@ -99,7 +134,13 @@ def judgeDir (p : Nat) (s : Stats Rat) (w : List Rat) : String × Option (Rat ×
       match Q.cond (Q.scaleMat sc ae) with
       | none => go rest judged false
       | some kappa =>
+        -- solver + power iteration: 4096·p·κ∞·u; plus the first-order effect of the rounding the INPUT
+        -- statistics unavoidably carry when they are computed in f64 from the rows (any algorithm):
+        -- ‖δf‖/‖f‖ ≤ κ∞(A)·(‖δd‖/‖d‖ + ‖δS‖/‖A‖), with the exact a-priori bounds `dd ≥ ‖δd‖∞`,
+        -- `dS ≥ ‖δS‖∞` of a centred two-pass computation (see `inputPerturbation`), doubled
+        let dn := Q.normInfV d
         let bound := (4096 * (p : Rat)) * kappa * Q.dyadicInv 53
+          + 2 * kappa * ((if dn = 0 then 0 else dd / dn) + dS / Q.normInfM ae)
         if bound > 1 / 10 then go rest judged false else
         match Q.solveExact ae (d.map fun x => [x]) with
         | none => go rest judged false
@@ -108,6 +149,7 @@ def judgeDir (p : Nat) (s : Stats Rat) (w : List Rat) : String × Option (Rat ×
           let w := List.zipWith (· / ·) w sc
           let (num, den) := Q.sin2 w f
           if Q.dotq w f ≥ 0 && decide (num ≤ bound * bound * den) then ("ok", some (bound, sc))
+          else if first && strict then ("bad:not_fisher", none)
           else go rest (judged || first) false
   let (v, b) := go ladderQ false true
   if v == "bad:not_fisher" then
@@ -134,16 +176,22 @@ def specLda (n p : Nat) (feats : Mat Float) (decoy : List Bool) (perm : List Nat
     let fq' := perm.map fun k => fq.getD k []
     let decoy' := perm.map fun k => decoy.getD k false
     let s' := stats fq' decoy' p
+    let pert := inputPerturbation fq decoy s p
     let judge (s : Stats Rat) (w : Option (List Nat)) : String × Option (Rat × List Rat) :=
       match w with
       | none =>
-        -- "reports failure" is allowed by the property text, also when the failure is spurious
-        -- (observation corpus/C15/observation-spurious-failure-*.req, theorem solve_fails_on_spd_witness)
-        ("ok", none)
+        -- "reports failure" is allowed by the property text, also when the failure is spurious in the
+        -- sense that the EXACT run of the same elimination fails too (observation
+        -- corpus/C15/observation-spurious-failure-*.req, theorem solve_fails_on_spd_witness); but not when
+        -- the exact run succeeds at ε₀ on a well-conditioned S_w + ε₀I
+        (match Q.cond (Q.addDiag s.sw (ladderQ.headD 0)) with
+         | some kappa =>
+           if kappa ≤ kappaStrict && exactRunOk p s.sw s.sb then "bad:failure_where_exact_run_succeeds" else "ok"
+         | none => "ok", none)
       | some bits =>
         if bits.length != p then ("bad:direction_length", none) else
         if !(bits.all finiteBits) then ("na", none) else
-        judgeDir p s (bits.map fun b => (ratOfF64Bits b).getD 0)
+        judgeDir p s pert.1 pert.2 (bits.map fun b => (ratOfF64Bits b).getD 0)
     -- narrow signature of the known finding C15-tiny-scale-early-stop: every |feature| ≤ 1e-7
     let tiny := fq.all fun r => r.all fun x => decide (Q.absq x ≤ 1 / 10000000)
     let relabel (v : String) : String := if v == "bad:not_fisher" && tiny then "bad:not_fisher_tiny_scale" else v
@@ -167,18 +215,31 @@ def specGauss (n m : Nat) (a b : Mat Float) (impl : List String) : String :=
   if !((a.all fun r => r.all Float.isFinite) && (b.all fun r => r.all Float.isFinite)) then "na" else
   let aq := matQ a
   if !(isPSD aq) then "na" else
+  let bq := matQ b
+  let eps0 := ladderQ.headD 0
+  -- well-conditioned at ε₀ AND the exact run of the same elimination succeeds there
+  let kappa0 := Q.cond (Q.addDiag aq eps0)
+  let wc := match kappa0 with
+    | some k => decide (k ≤ kappaStrict) && exactRunOk n aq bq
+    | none => false
   match impl with
   | ["0"] =>
-    -- "reports failure" is allowed by the property text, also when the failure is spurious
-    -- (observation corpus/C15/observation-spurious-failure-block-diagonal.req)
-    "ok"
+    -- "reports failure" is allowed by the property text, also when the exact run fails too
+    -- (observation corpus/C15/observation-spurious-failure-block-diagonal.req); not otherwise
+    if wc then "bad:failure_where_exact_run_succeeds" else "ok"
   | "1" :: rest =>
     match run (listN nat (n * m)) rest with
     | none => "bad:unparsable_reply"
     | some bits =>
       if !(bits.all finiteBits) then "bad:nonfinite_solution" else
       let x : Mat Rat := chunk n m (bits.map fun v => (ratOfF64Bits v).getD 0)
-      if Q.gaussOk tauGauss ladderQ aq x (matQ b) m then "ok" else
+      -- strict clause: the solution of the FIRST regulariser, to elimination accuracy
+      let tauStrict : Rat := match kappa0 with
+        | some k => Q.minq tauGauss (4096 * (n : Rat) * k * Q.dyadicInv 53)
+        | none => tauGauss
+      if wc && !(Q.gaussOk tauStrict [eps0] aq x bq m) then
+        (if Q.gaussOk tauGauss ladderQ aq x bq m then "bad:not_first_regulariser" else "bad:silently_wrong") else
+      if Q.gaussOk tauGauss ladderQ aq x bq m then "ok" else
       -- narrow signature of the known finding C15-silently-wrong-singular-illscaled: A is exactly
       -- singular (exact-ℚ rank < n) AND max |A_ij| ≥ 1e8 (the first regularisers are absorbed)
       let singular := (Q.solveExact aq (Q.identity n)).isNone
@@ -317,6 +378,19 @@ def handleScorePsms (args impl : List String) : Option Reply := do
       else "ok"
     pure (exact model (join impl) spec)
 
+/-- The three known findings are behaviours of the UNCHANGED algorithm, which the model reproduces
+    bit-exactly: their narrow verdicts are kept only when the implementation's reply equals the model's;
+    a different wrong answer on the same kind of input is reported under the general clause -/
+def narrowKnown (agree : Bool) (v : String) : String :=
+  if agree then v else
+  (((v.replace "bad:silently_wrong_singular_illscaled" "bad:silently_wrong").replace
+      "bad:not_fisher_tiny_scale" "bad:not_fisher").replace
+      "bad:not_fisher_start_orthogonal" "bad:not_fisher")
+
+def exactNarrow (model impl spec : String) : Reply :=
+  let r := exact model impl spec
+  { r with spec := narrowKnown r.agree r.spec }
+
 def handle (op : String) (args impl : List String) : Option Reply :=
   match op with
   | "gauss" => do
@@ -330,7 +404,7 @@ def handle (op : String) (args impl : List String) : Option Reply :=
     let model := match solve constsF n A B with
       | none => "0"
       | some x => join ("1" :: x.flatten.map outF)
-    pure (exact model (join impl) (specGauss n m A B impl))
+    pure (exactNarrow model (join impl) (specGauss n m A B impl))
   | "lda" => do
     let (n, p, f, decoy, perm) ← run (do
       let n ← nat; let p ← nat
@@ -353,7 +427,7 @@ def handle (op : String) (args impl : List String) : Option Reply :=
     let decoy' := perm.map fun k => decoy.getD k false
     let w' := train constsF Float.sqrt F' decoy' p
     let model := outW w ++ " " ++ outW w'
-    pure (exact model (join impl) (specLda n p F decoy perm impl))
+    pure (exactNarrow model (join impl) (specLda n p F decoy perm impl))
   | "scorepsms" => handleScorePsms args impl
   | _ => none
 
